@@ -148,6 +148,8 @@ def crash_site(c):
         kind = "signal%d" % c["signal"]
     site = "?"
     for line in err.splitlines():
+        if kind in ("hang", "asan-stack-overflow"):
+            break      # where the watchdog interrupts a loop / which frame of a runaway recursion overflows is arbitrary
         mm = re.search(r"#\d+ 0x[0-9a-f]+ in (.+?) /repo/src/([\w/.\-]+):(\d+)", line)
         if mm:
             fn = mm.group(1)
